@@ -155,6 +155,13 @@ func cmdVerify(args []string) {
 			if c.Kind == "func" && !c.Assumed && g.fnIndex[k] != nil {
 				keys = append(keys, k)
 			}
+			if c.Kind == "lemma" {
+				for _, p := range g.pkgs {
+					if len(p.GoFiles) > 0 && filepath.Dir(p.GoFiles[0]) == filepath.Dir(c.File) {
+						keys = append(keys, k)
+					}
+				}
+			}
 		}
 		sort.Strings(keys)
 	}
